@@ -892,6 +892,22 @@ fn histories_for(ctx: &Ctx, o: &Opts, prop: &str, quick: bool) -> Vec<History> {
                 let seed = derive(o.seed, "C18", i as u64);
                 hs.push(gen::c18_random(ctx, &pool, &mut Rng::new(seed), seed));
             }
+            // a database opened over a directory that needs rebuilding while one I/O error is injected:
+            // every hook point, first and last hit, four scripts each (thorough: twelve). If the open succeeds
+            // regardless, the handle must behave like any other.
+            if o.runs.is_none() {
+                let mut i = 0u64;
+                for (point, count) in gen::all_points(ctx) {
+                    let ks: Vec<usize> = if count <= 1 { vec![0] } else { vec![0, count - 1] };
+                    for k in ks {
+                        for _ in 0..(if quick { 4 } else { 12 }) {
+                            let seed = derive(o.seed, "C18-faulted-open", i);
+                            i += 1;
+                            hs.push(gen::c18_random_under(ctx, &pool, &mut Rng::new(seed), seed, Some((point.to_string(), k))));
+                        }
+                    }
+                }
+            }
             // one handle that sees many distinct phrases between repetitions; confusable spellings
             for i in 0..n(40, 800) {
                 let seed = derive(o.seed, "C18-recurrence", i as u64);
